@@ -31,24 +31,41 @@ fn as_try_conv(e: &syn::Expr) -> Option<(&syn::Expr, Option<Ty>)> {
     }
 }
 
-fn is_message(e: &syn::Expr) -> bool {
+/// A constant / formatted message (the payload of an error constructor, abstracted away).
+/// `mv`: locals bound by `let msg = format!(..)`.
+fn is_message(e: &syn::Expr, mv: &std::collections::BTreeSet<String>) -> bool {
     match strip(e) {
         syn::Expr::Lit(l) => matches!(l.lit, syn::Lit::Str(_)),
         syn::Expr::MethodCall(m) => {
-            m.args.is_empty() && ["into", "to_string", "to_owned"].contains(&m.method.to_string().as_str()) && is_message(&m.receiver)
+            m.args.is_empty() && ["into", "to_string", "to_owned"].contains(&m.method.to_string().as_str()) && is_message(&m.receiver, mv)
         }
         syn::Expr::Macro(m) => m.mac.path.is_ident("format"),
-        syn::Expr::Reference(r) => is_message(&r.expr),
+        syn::Expr::Reference(r) => is_message(&r.expr, mv),
+        syn::Expr::Path(p) if p.qself.is_none() && p.path.segments.len() == 1 => mv.contains(&p.path.segments[0].ident.to_string()),
         syn::Expr::Call(c) => {
             if let syn::Expr::Path(p) = strip(&c.func) {
                 let s = tok(&p.path).replace(' ', "");
-                (s == "String::from") && c.args.len() == 1 && is_message(&c.args[0])
+                (s == "String::from") && c.args.len() == 1 && is_message(&c.args[0], mv)
             } else {
                 false
             }
         }
         _ => false,
     }
+}
+
+/// `&str` / `&'a str` / `String`: the type of a message parameter of an inlined helper
+fn is_str_type(t: &syn::Type) -> bool {
+    match t {
+        syn::Type::Reference(r) if r.mutability.is_none() => is_str_type(&r.elem),
+        syn::Type::Paren(p) => is_str_type(&p.elem),
+        syn::Type::Path(tp) if tp.qself.is_none() => tp.path.is_ident("str") || tp.path.is_ident("String"),
+        _ => false,
+    }
+}
+
+pub(crate) fn is_format_macro(e: &syn::Expr) -> bool {
+    matches!(strip(e), syn::Expr::Macro(m) if m.mac.path.is_ident("format"))
 }
 
 impl<'a> FnCx<'a> {
@@ -66,7 +83,7 @@ impl<'a> FnCx<'a> {
         };
         let tag = match strip(e) {
             syn::Expr::Call(c) => match strip(&c.func) {
-                syn::Expr::Path(p) if p.qself.is_none() && c.args.iter().all(is_message) => path_tag(&p.path),
+                syn::Expr::Path(p) if p.qself.is_none() && c.args.iter().all(|a| is_message(a, &self.msg_vars)) => path_tag(&p.path),
                 _ => None,
             },
             syn::Expr::Path(p) if p.qself.is_none() => path_tag(&p.path),
@@ -115,11 +132,43 @@ impl<'a> FnCx<'a> {
         Ok((ir, ty))
     }
 
+    /// `expr` for a position that is not in the tail flow of the target
+    pub(crate) fn expr_nt(&mut self, e: &syn::Expr, want: Option<&Ty>) -> R<(E, Ty)> {
+        self.tail_ok = false;
+        self.expr(e, want)
+    }
+
     fn expr0(&mut self, e: &syn::Expr, want: Option<&Ty>) -> R<(E, Ty)> {
+        // the tail-flow flag is consumed here; only the structured forms (`if` branches, blocks,
+        // `match` arms, parentheses) hand it on, every operand position sees `false`
+        let tail = std::mem::replace(&mut self.tail_ok, false);
+        let r = self.expr1(e, want, tail);
+        self.tail_ok = false;
+        r
+    }
+
+    fn expr1(&mut self, e: &syn::Expr, want: Option<&Ty>, tail: bool) -> R<(E, Ty)> {
         let line = line_of(e);
+        if !self.opaque.is_empty() && self.inline_stack.len() == 1 {
+            let t: String = tok(e).split_whitespace().collect();
+            if let Some((_, pn, ty)) = self.opaque.iter().find(|(x, _, _)| *x == t).cloned() {
+                if let Some((ln, _)) = self.lookup(&pn) {
+                    return Ok((E::Var(ln), ty));
+                }
+            }
+        }
         match e {
-            syn::Expr::Paren(p) => self.expr(&p.expr, want),
-            syn::Expr::Group(p) => self.expr(&p.expr, want),
+            syn::Expr::Paren(p) => {
+                self.tail_ok = tail;
+                self.expr(&p.expr, want)
+            }
+            syn::Expr::Group(p) => {
+                self.tail_ok = tail;
+                self.expr(&p.expr, want)
+            }
+            syn::Expr::Struct(st) => self.struct_lit(line, st),
+            // an assignment as the value of a block / `match` arm (type `()`)
+            syn::Expr::Assign(_) | syn::Expr::AssignOp(_) => self.assign_self(line, e, &[], want, tail),
             syn::Expr::Reference(r) => {
                 if r.mutability.is_some() {
                     return self.no(line, format!("`{}`: mutable borrow", short(e)));
@@ -217,16 +266,21 @@ impl<'a> FnCx<'a> {
                 let (c, _) = self.expr(&i.cond, Some(&Ty::Bool))?;
                 match &i.else_branch {
                     Some((_, els)) => {
+                        self.tail_ok = tail;
                         let (t, tt) = self.block(&i.then_branch, want)?;
                         let w2 = match want {
                             Some(w) => Some(w.clone()),
                             None => Some(tt.clone()),
                         };
+                        self.tail_ok = tail;
                         let (f, ft) = self.expr(els, w2.as_ref())?;
                         let ty = self.unify(line, &tt, &ft, "`if` branches")?;
                         Ok((E::If(Box::new(c), Box::new(t), Box::new(f)), ty))
                     }
                     None => {
+                        // (in tail flow only as the last expression of the body, or — decided by
+                        // `stmts` — when the block ends in a `return`)
+                        self.tail_ok = tail;
                         let (t, _) = self.block(&i.then_branch, Some(&Ty::Unit))?;
                         Ok((E::If(Box::new(c), Box::new(t), Box::new(E::Unit)), Ty::Unit))
                     }
@@ -236,9 +290,10 @@ impl<'a> FnCx<'a> {
                 if b.label.is_some() {
                     return self.no(line, "labelled block");
                 }
+                self.tail_ok = tail;
                 self.block(&b.block, want)
             }
-            syn::Expr::Match(m) => self.match_expr(line, m, want),
+            syn::Expr::Match(m) => self.match_expr(line, m, want, tail),
             syn::Expr::Return(r) => {
                 let ret = self.ret.clone();
                 let v = match &r.expr {
@@ -247,6 +302,15 @@ impl<'a> FnCx<'a> {
                         self.unify(line, &Ty::Unit, &ret, "`return;`")?;
                         E::Unit
                     }
+                };
+                // state-passing translation of a `&mut self` target: return `(value, self)`
+                let v = if self.mut_self && self.inline_stack.len() == 1 {
+                    match self.lookup("self") {
+                        Some((ln, _)) => E::Tuple(vec![v, E::Var(ln)]),
+                        None => return self.no(line, "`return` in a `&mut self` target without `self` in scope"),
+                    }
+                } else {
+                    v
                 };
                 Ok((E::Return(Box::new(v)), Ty::Never))
             }
@@ -291,6 +355,43 @@ impl<'a> FnCx<'a> {
         }
     }
 
+    /// `Name { f: e, g }` / `Self { .. }` of a whitelisted struct: every field exactly once, no
+    /// `..base`; the field expressions are evaluated in source order.
+    fn struct_lit(&mut self, line: usize, st: &syn::ExprStruct) -> R<(E, Ty)> {
+        let last = st.path.segments.last().map(|s| s.ident.to_string()).unwrap_or_default();
+        let name = if last == "Self" { self.owner.clone() } else { last };
+        let sd = match self.d.structs.get(&name) {
+            Some(sd) => sd.clone(),
+            None => return self.no(line, format!("struct literal of `{}` which is not a whitelisted struct", name)),
+        };
+        if st.rest.is_some() || st.dot2_token.is_some() {
+            return self.no(line, "struct literal with `..base`");
+        }
+        if !st.attrs.is_empty() {
+            return self.no(line, "attribute on a struct literal");
+        }
+        let mut fs: Vec<(String, E)> = vec![];
+        for f in &st.fields {
+            let id = match &f.member {
+                syn::Member::Named(id) => id.to_string(),
+                syn::Member::Unnamed(_) => return self.no(line, "positional field in a struct literal"),
+            };
+            let ft = match sd.fields.iter().find(|(n, _)| *n == id) {
+                Some((_, t)) => t.clone(),
+                None => return self.no(line, format!("struct `{}` has no field `{}`", name, id)),
+            };
+            if fs.iter().any(|(n, _)| *n == lean_ident(&id)) {
+                return self.no(line, format!("field `{}` given twice", id));
+            }
+            let (v, _) = self.expr(&f.expr, Some(&ft))?;
+            fs.push((lean_ident(&id), v));
+        }
+        if fs.len() != sd.fields.len() {
+            return self.no(line, format!("struct literal of `{}` does not give every field", name));
+        }
+        Ok((E::StructLit(name.clone(), fs), Ty::Struct(name)))
+    }
+
     fn path_expr(&mut self, line: usize, p: &syn::Path, _want: Option<&Ty>) -> R<(E, Ty)> {
         let segs: Vec<String> = p.segments.iter().map(|s| s.ident.to_string()).collect();
         if segs.len() == 1 {
@@ -302,6 +403,9 @@ impl<'a> FnCx<'a> {
                 return self.unit_variant(line, &en, &vn);
             }
             if id == "None" {
+                if let Some(Ty::Opt(t)) = _want.map(|w| self.resolve(w)) {
+                    return Ok((E::NoneE, Ty::Opt(t)));
+                }
                 let v = self.fresh_var();
                 return Ok((E::NoneE, Ty::Opt(Box::new(v))));
             }
@@ -574,6 +678,10 @@ impl<'a> FnCx<'a> {
         let self_ty = if h.owner.is_empty() { None } else { Some(h.owner.as_str()) };
         // ---- parameters (name, type), receiver first
         let mut params: Vec<(String, Ty)> = vec![];
+        // parameters of type `&str` / `String`: message text, usable in the callee only as an
+        // error payload (abstracted); the argument must itself be a message
+        let mut msg_params: Vec<String> = vec![];
+        let mut is_msg_param: Vec<bool> = vec![];
         let mut has_recv = false;
         for a in &sig.inputs {
             match a {
@@ -597,6 +705,12 @@ impl<'a> FnCx<'a> {
                         syn::Pat::Wild(_) => "_".to_string(),
                         _ => return refuse(&h.file, line_of(a), format!("fn `{}` (inlined at line {}): parameter pattern `{}`", what, line, tok(&pt.pat))),
                     };
+                    if is_str_type(&pt.ty) {
+                        msg_params.push(id);
+                        is_msg_param.push(true);
+                        continue;
+                    }
+                    is_msg_param.push(false);
                     if let syn::Type::Reference(r) = &*pt.ty {
                         if r.mutability.is_some() {
                             return refuse(&h.file, line_of(a), format!("fn `{}` (inlined at line {}): `&mut` parameter", what, line));
@@ -646,7 +760,20 @@ impl<'a> FnCx<'a> {
         } else if recv.is_some() {
             return self.no(line, format!("`{}` has no receiver", what));
         }
-        arg_ir.extend(self.args_against(line, &what, args, rest_params)?);
+        if args.len() != is_msg_param.len() {
+            return self.no(line, format!("call of `{}`: {} arguments for {} parameters", what, args.len(), is_msg_param.len()));
+        }
+        let mut value_args = vec![];
+        for (a, is_msg) in args.into_iter().zip(is_msg_param.iter()) {
+            if *is_msg {
+                if !is_message(a, &self.msg_vars) {
+                    return self.no(line, format!("call of `{}`: the argument `{}` of a `&str`/`String` parameter is not a constant message", what, short(a)));
+                }
+            } else {
+                value_args.push(a);
+            }
+        }
+        arg_ir.extend(self.args_against(line, &what, value_args, rest_params)?);
         // ---- the body, in a fresh frame
         let saved_scopes = std::mem::replace(&mut self.scopes, vec![vec![]]);
         let saved_aliases = std::mem::replace(&mut self.aliases, vec![std::collections::BTreeMap::new()]);
@@ -654,6 +781,9 @@ impl<'a> FnCx<'a> {
         let saved_owner = std::mem::replace(&mut self.owner, h.owner.clone());
         let saved_file = std::mem::replace(&mut self.file, h.file.clone());
         self.inline_stack.push(key);
+        let saved_msgs = std::mem::take(&mut self.msg_vars);
+        self.msg_vars.extend(msg_params.iter().cloned());
+        self.tail_ok = false;
         let mut binds: Vec<(String, E)> = vec![];
         for ((pn, pt), a) in params.iter().zip(arg_ir.into_iter()) {
             match &a {
@@ -669,6 +799,8 @@ impl<'a> FnCx<'a> {
         }
         let r = self.block(&h.block, Some(&ret));
         self.inline_stack.pop();
+        self.msg_vars = saved_msgs;
+        self.tail_ok = false;
         self.scopes = saved_scopes;
         self.aliases = saved_aliases;
         self.ret = saved_ret;
@@ -708,7 +840,7 @@ impl<'a> FnCx<'a> {
                     Ok((E::UnwrapOr(Box::new(conv), Box::new(c)), ct))
                 }
                 ("unwrap", 0) | ("expect", 1) => {
-                    if name == "expect" && !is_message(args[0]) {
+                    if name == "expect" && !is_message(args[0], &self.msg_vars) {
                         return self.no(line, "`expect` with a non-constant message");
                     }
                     Ok((E::Unwrap(Box::new(conv)), tgt))
@@ -744,6 +876,9 @@ impl<'a> FnCx<'a> {
                 if let Some(sig) = self.d.fns.get(&(n.clone(), name.clone())).cloned() {
                     if sig.params.first().map(|(p, _)| p.as_str()) != Some("self") {
                         return self.no(line, format!("`{}::{}` has no receiver", n, name));
+                    }
+                    if sig.mut_self {
+                        return self.no(line, format!("call of `{}::{}` which takes `&mut self`", n, name));
                     }
                     let mut a = vec![recv];
                     a.extend(self.args_against(line, &format!("{}::{}", n, name), args, &sig.params[1..])?);
@@ -798,7 +933,7 @@ impl<'a> FnCx<'a> {
                     Ok((E::UnwrapOr(Box::new(recv), Box::new(c)), (**inner).clone()))
                 }
                 ("unwrap", 0) => Ok((E::Unwrap(Box::new(recv)), (**inner).clone())),
-                ("expect", 1) if is_message(args[0]) => Ok((E::Unwrap(Box::new(recv)), (**inner).clone())),
+                ("expect", 1) if is_message(args[0], &self.msg_vars) => Ok((E::Unwrap(Box::new(recv)), (**inner).clone())),
                 ("ok_or", 1) => {
                     let key = match &self.ret {
                         Ty::Res(_, k) => k.clone(),
